@@ -915,6 +915,18 @@ func (g *c11Gen) hostOp() c11Op {
 	for j := 1 + r.Intn(3); j > 0; j-- {
 		h.Bits = append(h.Bits, r.Intn(6))
 	}
+	if h.Kind == "short" {
+		h.LenBytes = 1 + r.Intn(2)
+		h.Kind = "ok"
+	}
+	if h.Kind == "ok" && r.Intn(3) == 0 {
+		// a list larger than the 16 kB minimum (the spec's size is a lower bound) with revoked positions beyond 131071
+		h.LenBytes = []int{defaultBitstringLengthInBytes + 1, 2 * defaultBitstringLengthInBytes, 4 * defaultBitstringLengthInBytes}[r.Intn(3)]
+		h.Bits = []int{h.LenBytes*8 - 1 - r.Intn(8), maxBitstringIndex + 1 + r.Intn(h.LenBytes*8-maxBitstringIndex-1)}
+		if r.Intn(2) == 0 {
+			h.Bits = append(h.Bits, r.Intn(6))
+		}
+	}
 	// hostile follow-up: a credential naming exactly this URL and one of the bits this host sets, verified on either node
 	// (a list that is mis-signed, names another list, has another purpose … must not revoke it), again after a refresh window
 	mk := func() c11Op {
@@ -925,10 +937,6 @@ func (g *c11Gen) hostOp() c11Op {
 	g.pending = append(g.pending, mk())
 	if r.Intn(2) == 0 {
 		g.pending = append(g.pending, c11Op{Op: "tick", Secs: 960}, mk())
-	}
-	if h.Kind == "short" {
-		h.LenBytes = 1 + r.Intn(2)
-		h.Kind = "ok"
 	}
 	if h.Kind == "wrongsubject" {
 		h.Subject = g.someList(0)
@@ -1090,7 +1098,7 @@ func (g *c11Gen) next() c11Op {
 }
 
 func c11BitsOp(r *rand.Rand) c11Op {
-	n := []int{0, 1, 2, 3, 16, defaultBitstringLengthInBytes}[r.Intn(6)]
+	n := []int{0, 1, 2, 3, 16, defaultBitstringLengthInBytes, defaultBitstringLengthInBytes + 1, 2 * defaultBitstringLengthInBytes, 4 * defaultBitstringLengthInBytes}[r.Intn(9)]
 	var sets []c11BitOp
 	var gets []int
 	idx := func() int {
@@ -1191,6 +1199,15 @@ func TestVerifC11(t *testing.T) {
 		}
 		run(c11Op{Op: "bits", Len: 2, Sets: []c11BitOp{{I: i, V: true}}, Gets: gets})
 		run(c11Op{Op: "bits", Len: 2, Sets: []c11BitOp{{I: 3, V: true}, {I: i, V: true}, {I: i, V: false}}, Gets: gets})
+	}
+	// lengths beyond the 16 kB minimum (round trip through compress/expand; last bit, first bit beyond the minimum size)
+	for _, n := range []int{defaultBitstringLengthInBytes + 1, 2 * defaultBitstringLengthInBytes, 4 * defaultBitstringLengthInBytes} {
+		idx := []int{0, maxBitstringIndex, maxBitstringIndex + 1, n*8 - 1, n * 8}
+		var sets []c11BitOp
+		for _, i := range idx {
+			sets = append(sets, c11BitOp{I: i, V: true})
+		}
+		run(c11Op{Op: "bits", Len: n, Sets: sets, Gets: idx})
 	}
 	for i := 0; i < 40; i++ {
 		run(c11BitsOp(rng))
